@@ -270,6 +270,9 @@ def stepEnf (st : DrvState) (f : List String) : Option (DrvState × String) :=
   | ["e.load"] => some (upd st e.loadPolicy)
   | ["e.loadc"] => let r := e.loadPolicy; some ({ st with enf := r.1 }, match r.2 with | .err _ => "err" | x => resS x)
   | ["e.loadf", fp, fg] => some (upd st (e.loadFilteredPolicy (decList fp) (decList fg)))
+  | ["e.loadfc", fp, fg] =>
+    let r := upd st (e.loadFilteredPolicy (decList fp) (decList fg))
+    some (r.1, if r.2.startsWith "err" then "err" else r.2)
   | ["e.save"] => some (upd st e.savePolicy)
   | ["e.build"] => let r := e.buildRoleLinks; some ({ st with enf := r.1 }, match r.2 with | none => "ok" | some k => "err:" ++ k.toString)
   | ["e.keeprm"] => some ({ st with keptRm := some none }, "ok")
@@ -357,7 +360,7 @@ def stepEnf (st : DrvState) (f : List String) : Option (DrvState × String) :=
 def cachePolicy (f : List String) (out : String) : Bool :=
   match f.head? with
   | some op =>
-    if op ∈ ["e.clear", "e.load", "e.loadf", "e.loadc", "e.setmodel", "e.setadapter", "e.setrm", "e.build", "e.seteft", "e.addfn"] then true
+    if op ∈ ["e.clear", "e.load", "e.loadf", "e.loadfc", "e.loadc", "e.setmodel", "e.setadapter", "e.setrm", "e.build", "e.seteft", "e.addfn"] then true
     else if op == "e.auto" then f[1]? == some "enforce"
     else if op ∈ ["e.add", "e.addm", "e.rm", "e.rmm", "e.rmf", "e.deluser", "e.delrole", "e.delperm"] then out == "true"
     else false
